@@ -2,6 +2,7 @@ package treex
 
 import (
 	"bytes"
+	"encoding/json"
 	"fmt"
 	"strings"
 
@@ -118,6 +119,82 @@ func dumpVerdict(ref, got vnode.Snapshot) string {
 	return ""
 }
 
+// convCase is one execution of C25/C26: a tree, a delivery order (indices may repeat) and the
+// kind of delivery.
+type convCase struct {
+	Shape Shape `json:"shape"`
+	Order []int `json:"order"`
+	Kind  int   `json:"kind"`
+}
+
+type convRef struct {
+	want    vnode.View
+	refDump vnode.Snapshot
+}
+
+// reference runs the C25 reference node (only the winning branch, in order).
+func reference(env *Env, r *vx.Run, sh Shape, blocks []*types.Block, txs [][]byte) convRef {
+	ref := env.Fresh()
+	for _, i := range sh.Branch(sh.Best()) {
+		if err := ref.Deliver(vnode.Broadcast, blocks[i], "peer"); err != nil {
+			r.Note("reference refused block: %v", err)
+		}
+	}
+	cr := convRef{ref.Observe(txs), ref.Snapshot()}
+	ref.Close()
+	ref.Forget()
+	return cr
+}
+
+// judgeConv runs one case on a fresh node and returns (fingerprint, description) of the failure,
+// or "" "" when the property held.
+func judgeConv(env *Env, r *vx.Run, mode string, c convCase, blocks []*types.Block, txs [][]byte, cr convRef, restart bool, count bool) (string, string) {
+	sh := c.Shape
+	n := len(blocks)
+	t := env.Fresh()
+	notes := deliver(t, blocks, c.Order, c.Kind)
+	desc := fmt.Sprintf("tree %s, delivery order %v, kind %d (refusals %v)", sh, c.Order, c.Kind, notes)
+	if mode == "C26" {
+		if count {
+			r.Seen("distinct", fmt.Sprintf("n=%d refused=%d kind=%d lastseq=%d", n, len(notes), c.Kind, lastSeq(t)))
+		}
+		w := SeqReplay(t)
+		t.Close()
+		t.Forget()
+		if w != "" {
+			return "seqlog:" + vx.Norm(w, 40), desc + ": " + w
+		}
+		return "", ""
+	}
+	got := t.Observe(txs)
+	dump := t.Snapshot()
+	t.Close()
+	t.Forget()
+	if count {
+		r.Seen("distinct", fmt.Sprintf("n=%d refused=%d kind=%d winner-depth=%d", n, len(notes), c.Kind, len(sh.Branch(sh.Best()))))
+	}
+	if d := got.Diff(cr.want, 6); len(d) > 0 {
+		return "converge:" + vx.Norm(d[0], 30), desc + ": answers differ from a fresh node that received only the winning branch: " + strings.Join(d, "; ")
+	}
+	if w := dumpVerdict(cr.refDump, dump); w != "" {
+		return "converge-db:" + vx.Norm(w, 40), desc + ": " + w
+	}
+	if restart {
+		t2 := vnode.New(vnode.Options{Snap: dump})
+		got2 := t2.Observe(txs)
+		t2.Close()
+		t2.Forget()
+		if count {
+			r.Count("restarts", 1)
+		}
+		if d := got2.Diff(cr.want, 6); len(d) > 0 {
+			k0 := strings.SplitN(d[0], ":", 2)[0]
+			return "converge-restart:" + vx.Norm(d[0], 30), desc + ": after a restart the answers differ from the reference node: " + strings.Join(d, "; ") + " [" + vnode.Explain(got2[k0], cr.want[k0]) + "]"
+		}
+	}
+	return "", ""
+}
+
 // RunConverge is the body of C25 (mode "C25") and C26 (mode "C26").
 func RunConverge(r *vx.Run, mode string, maxN int, restartAll bool) {
 	env, err := NewEnv(nil)
@@ -127,6 +204,36 @@ func RunConverge(r *vx.Run, mode string, maxN int, restartAll bool) {
 		return
 	}
 	defer env.P.Close()
+	if raw, ok := r.Replaying(); ok {
+		var c convCase
+		if err := json.Unmarshal(raw, &c); err != nil {
+			fmt.Println("REPLAY-ERROR", err)
+			return
+		}
+		blocks, err := env.Build(c.Shape)
+		if err != nil {
+			fmt.Println("REPLAY-ERROR build:", err)
+			return
+		}
+		txs := TxHashes(blocks)
+		var cr convRef
+		if mode == "C25" {
+			cr = reference(env, r, c.Shape, blocks, txs)
+		}
+		for i := 0; i < 5; i++ {
+			fp, what := judgeConv(env, r, mode, c, blocks, txs, cr, true, true)
+			r.Count("executions", 1)
+			fmt.Printf("replay %d: %q %s\n", i, fp, what)
+			if fp != "" {
+				cc := c
+				r.Violate(fp, what, cc, func() string {
+					f, _ := judgeConv(env, r, mode, cc, blocks, txs, cr, true, false)
+					return f
+				})
+			}
+		}
+		return
+	}
 	item := 0
 	for n := 1; n <= maxN; n++ {
 		for _, sh := range Shapes(n) {
@@ -148,19 +255,9 @@ func RunConverge(r *vx.Run, mode string, maxN int, restartAll bool) {
 				continue
 			}
 			txs := TxHashes(blocks)
-			var want vnode.View
-			var refDump vnode.Snapshot
+			var cr convRef
 			if mode == "C25" {
-				ref := env.Fresh()
-				for _, i := range sh.Branch(best) {
-					if err := ref.Deliver(vnode.Broadcast, blocks[i], "peer"); err != nil {
-						r.Note("reference refused block: %v", err)
-					}
-				}
-				want = ref.Observe(txs)
-				refDump = ref.Snapshot()
-				ref.Close()
-				ref.Forget()
+				cr = reference(env, r, sh, blocks, txs)
 			}
 			r.Seen("trees", sh.String())
 			perms := Perms(n)
@@ -174,45 +271,17 @@ func RunConverge(r *vx.Run, mode string, maxN int, restartAll bool) {
 							kind = vnode.Sync
 						}
 					}
-					t := env.Fresh()
-					notes := deliver(t, blocks, ord, kind)
+					c := convCase{sh, ord, kind}
+					restart := restartAll || variant == 0
 					r.Count("executions", 1)
 					r.Count("transitions", int64(len(ord)))
 					r.Seen("states", fmt.Sprintf("%s|%v|%d", sh, ord, kind))
-					kase := map[string]interface{}{"shape": sh, "order": ord, "kind": kind}
-					desc := fmt.Sprintf("tree %s, delivery order %v, kind %d (refusals %v)", sh, ord, kind, notes)
-					if mode == "C26" {
-						r.Seen("distinct", fmt.Sprintf("n=%d refused=%d kind=%d lastseq=%d", n, len(notes), kind, lastSeq(t)))
-						if w := SeqReplay(t); w != "" {
-							r.Violate("seqlog:"+vx.Norm(w, 40), desc+": "+w, kase, nil)
-						}
-						t.Close()
-						t.Forget()
-						continue
-					}
-					got := t.Observe(txs)
-					dump := t.Snapshot()
-					t.Close()
-					t.Forget()
-					r.Seen("distinct", fmt.Sprintf("n=%d refused=%d kind=%d winner-depth=%d", n, len(notes), kind, len(sh.Branch(best))))
-					if d := got.Diff(want, 6); len(d) > 0 {
-						r.Violate("converge:"+vx.Norm(d[0], 30), desc+": answers differ from a fresh node that received only the winning branch: "+strings.Join(d, "; "), kase, nil)
-						continue
-					}
-					if w := dumpVerdict(refDump, dump); w != "" {
-						r.Violate("converge-db:"+vx.Norm(w, 40), desc+": "+w, kase, nil)
-						continue
-					}
-					if restartAll || variant == 0 {
-						t2 := vnode.New(vnode.Options{Snap: dump})
-						got2 := t2.Observe(txs)
-						t2.Close()
-						t2.Forget()
-						r.Count("restarts", 1)
-						if d := got2.Diff(want, 6); len(d) > 0 {
-							k0 := strings.SplitN(d[0], ":", 2)[0]
-							r.Violate("converge-restart:"+vx.Norm(d[0], 30), desc+": after a restart the answers differ from the reference node: "+strings.Join(d, "; ")+" ["+vnode.Explain(got2[k0], want[k0])+"]", kase, nil)
-						}
+					if fp, what := judgeConv(env, r, mode, c, blocks, txs, cr, restart, true); fp != "" {
+						// the same case must fail the same way every time before it is believed
+						r.Violate(fp, what, c, func() string {
+							f, _ := judgeConv(env, r, mode, c, blocks, txs, cr, restart, false)
+							return f
+						})
 					}
 				}
 			}
